@@ -57,7 +57,7 @@ def Msg.errOf : Msg → Option Nat
 def recvMsgSize : Nat := 56
 
 /-- `compactionThreshold = imem.BufferPoolingThreshold * (recvMsgSize + 1)` -/
-def compactionThreshold : Nat := bufferPoolingThreshold * (recvMsgSize + 1)
+def compactionThreshold : Nat := rbBufferPoolingThreshold * (recvMsgSize + 1)
 
 /-- content of pooled memory that `copy` did not overwrite (the harness pool fills with 0xEE) -/
 def poison : UInt8 := 0xEE
@@ -86,7 +86,7 @@ def compactBacklog (b : RB) (r : Msg) : RB :=
     let sufLen := b.sufLen + 1
     let sufBytes : Int := b.sufBytes + (d.length : Int)
     let backlogHeapSize : Int := (sufLen : Int) * (recvMsgSize : Int) + sufBytes
-    if backlogHeapSize ≤ (utilizationFactor : Int) * sufBytes then
+    if backlogHeapSize ≤ (rbUtilizationFactor : Int) * sufBytes then
       { b with sufBytes := 0, sufLen := 0 }
     else if backlogHeapSize ≤ (compactionThreshold : Int) then
       { b with sufBytes := sufBytes, sufLen := sufLen }
